@@ -61,6 +61,7 @@ fn main() {
         Some("c20-inner") => props::c20::inner(&args[2..]),
         Some("c19-case") => props::c19::debug_case(args[2].parse().unwrap(), args[3].parse().unwrap(), &args[4]),
         Some("c17-worker") => props::c17::worker(&args[2..]),
+        Some("c15-one") => props::c15::debug_one(args[2].parse().unwrap_or(2), args.get(3).is_some_and(|x| x == "grown")),
         Some("bigrecovery") => {
             let mut report = util::Report::new("debug", "quick", "model_checking");
             props::bigrecovery::run(&["C04", "C11"], &mut report);
